@@ -83,7 +83,8 @@ func (u *Universe) repoDirFor(importPath string) string {
 func loadUniverse(repo, modDir string, patterns []string) (*Universe, error) {
 	u := &Universe{repo: repo, modDir: modDir, pkgs: map[string]*PkgInfo{}, effects: map[*ssa.Function]ModSet{}, ifaceContracts: map[string]*FuncContract{}, finalGlobals: map[string]bool{}}
 	u.modules = readModules(repo)
-	cfg := &packages.Config{Mode: packages.LoadAllSyntax, Dir: modDir, Env: append(os.Environ(), "GOFLAGS=-mod=mod", "GOPROXY=off", "GOSUMDB=off", "GOTOOLCHAIN=local")}
+	cfg := &packages.Config{Mode: packages.LoadAllSyntax, Dir: modDir, Env: append(os.Environ(), "GOFLAGS=-mod=mod", "GOPROXY=off", "GOSUMDB=off", "GOTOOLCHAIN=local",
+		"PATH=/opt/veriftools/go1.26.8/bin:"+os.Getenv("PATH"))}
 	pkgs, err := packages.Load(cfg, patterns...)
 	if err != nil {
 		return nil, err
